@@ -1,0 +1,82 @@
+//go:build verif
+
+package limit
+
+// Accessors used by the verification harness only (build tag verif); no call site is touched.
+
+// VerifEstimate returns the un-truncated estimate.
+func (l *VegasLimit) VerifEstimate() float64 {
+	l.mu.RLock()
+	defer l.mu.RUnlock()
+	return l.estimatedLimit
+}
+
+// VerifProbe returns the probe counter and the current jitter.
+func (l *VegasLimit) VerifProbe() (int64, float64) {
+	l.mu.RLock()
+	defer l.mu.RUnlock()
+	return l.probeCount, l.probeJitter
+}
+
+// VerifSetProbeJitter forces the jitter of the next probe decision.
+func (l *VegasLimit) VerifSetProbeJitter(j float64) {
+	l.mu.Lock()
+	defer l.mu.Unlock()
+	l.probeJitter = j
+}
+
+// VerifWouldProbe tells whether the next sample is a probe.
+func (l *VegasLimit) VerifWouldProbe() bool {
+	l.mu.RLock()
+	defer l.mu.RUnlock()
+	return int64(l.probeJitter*float64(l.probeMultipler)*l.estimatedLimit) <= l.probeCount+1
+}
+
+// VerifNoLoad returns the un-truncated baseline.
+func (l *VegasLimit) VerifNoLoad() float64 {
+	l.mu.RLock()
+	defer l.mu.RUnlock()
+	return l.rttNoLoad.Get()
+}
+
+// VerifEstimate returns the un-truncated estimate.
+func (l *GradientLimit) VerifEstimate() float64 {
+	l.mu.RLock()
+	defer l.mu.RUnlock()
+	return l.estimatedLimit
+}
+
+// VerifResetCounter returns the probe countdown.
+func (l *GradientLimit) VerifResetCounter() int {
+	l.mu.RLock()
+	defer l.mu.RUnlock()
+	return l.resetRTTCounter
+}
+
+// VerifSetResetCounter forces the probe countdown.
+func (l *GradientLimit) VerifSetResetCounter(n int) {
+	l.mu.Lock()
+	defer l.mu.Unlock()
+	l.resetRTTCounter = n
+}
+
+// VerifNoLoad returns the un-truncated baseline.
+func (l *GradientLimit) VerifNoLoad() float64 {
+	l.mu.RLock()
+	defer l.mu.RUnlock()
+	return l.rttNoLoadMeasurement.Get()
+}
+
+// VerifEstimate returns the un-truncated estimate.
+func (l *Gradient2Limit) VerifEstimate() float64 {
+	l.mu.RLock()
+	defer l.mu.RUnlock()
+	return l.estimatedLimit
+}
+
+// VerifRTTs returns the short and long RTT measurements.
+func (l *Gradient2Limit) VerifRTTs() (float64, float64) {
+	l.mu.RLock()
+	defer l.mu.RUnlock()
+	return l.shortRTT.Get(), l.longRTT.Get()
+}
